@@ -519,6 +519,9 @@ def legacy_astral_range(text):
     for i in range(len(cps) - 2):
         if cps[i] >= 0x10000 and cps[i + 1] == 0x2D and cps[i + 2] != 0x5D:
             return True
+        # ... or whose RIGHT end is one (`[\\uDE00-U+1044F]`: DE00-D801 out of order in ES, DE00-1044F here)
+        if cps[i + 2] >= 0x10000 and cps[i + 1] == 0x2D and cps[i] != 0x5B:
+            return True
     return False
 
 
